@@ -731,6 +731,9 @@ class Response(StreamResponse):
             return await super()._do_start_compression(coding)
         if coding is ContentCoding.identity:
             return
+        if self._body is None:
+            # nothing to compress
+            return
         # Instead of using _payload_writer.enable_compression,
         # compress the whole body
         compressor = ZLibCompressor(
@@ -738,7 +741,6 @@ class Response(StreamResponse):
             max_sync_chunk_size=self._zlib_executor_size,
             executor=self._zlib_executor,
         )
-        assert self._body is not None
         self._compressed_body = (
             await compressor.compress(self._body) + compressor.flush()
         )
